@@ -24,13 +24,13 @@ import (
 
 // C16Call is one planned synchronous call.
 type C16Call struct {
-	Kind     string `json:"kind"`     // gettx getheaders getheader sendtx savetxs reprocess markinvalid marknotinvalid feequotes
-	Key      int    `json:"key"`      // selects the tx / header / height this call is about (distinct per kind)
-	Behave   string `json:"behave"`   // answer reject silence late
-	Code     uint32 `json:"code"`     // reject code
-	Text     string `json:"text"`     // reject text
-	Order    int    `json:"order"`    // position of the server's response among all responses
-	DelayMs  int    `json:"delay_ms"` // extra delay before this response
+	Kind    string `json:"kind"`     // gettx getheaders getheader sendtx savetxs reprocess markinvalid marknotinvalid feequotes
+	Key     int    `json:"key"`      // selects the tx / header / height this call is about (distinct per kind)
+	Behave  string `json:"behave"`   // answer reject silence late
+	Code    uint32 `json:"code"`     // reject code
+	Text    string `json:"text"`     // reject text
+	Order   int    `json:"order"`    // position of the server's response among all responses
+	DelayMs int    `json:"delay_ms"` // extra delay before this response
 }
 
 // C16Plan is a set of concurrent calls plus unsolicited server messages.
@@ -327,7 +327,7 @@ func c16Run(plan *C16Plan) (*c16Violation, map[string]bool) {
 				}
 			case "getheaders":
 				hs, _ := o.val.(*Headers)
-				if hs == nil || int(hs.RequestHeight) != 1000+call.Key || len(hs.Headers) != 3 || *hs.Headers[0].BlockHash() != *c16HeaderHash(call.Key*10) {
+				if hs == nil || int(hs.RequestHeight) != 1000+call.Key || len(hs.Headers) != 3 || *hs.Headers[0].BlockHash() != *c16HeaderHash(call.Key * 10) {
 					return &c16Violation{"C16/getheaders/wrong-response", d + ": returned headers of another request"}, flags
 				}
 			case "getheader":
